@@ -229,6 +229,7 @@ def run(ctx):
 
     module_state(ctx)
     per_call_state(ctx)
+    class_level_containers(ctx)
 
 
 def _owner_phases(pm, attr):
@@ -531,6 +532,97 @@ def per_call_state(ctx):
                 detail={"module": rel, "stores_to_self_outside_init": 0})
 
 
+MUTATORS = {"append", "appendleft", "extend", "extendleft", "insert", "pop", "popleft", "remove", "clear", "add", "discard", "update",
+            "setdefault", "popitem", "sort", "reverse"}
+CONTAINER_CALLS = {"list", "dict", "set", "deque", "OrderedDict", "defaultdict", "collections.deque", "collections.OrderedDict",
+                   "collections.defaultdict", "bytearray"}
+
+
+POSITIVE_R12_4 = """
+from collections import deque
+class T(object):
+    queue = deque([])
+    table = {"a": 1}
+    def __init__(self):
+        self.x = 0
+    def step(self):
+        self.queue.append(1)
+        return self.table["a"]
+class U(object):
+    queue = []
+    def __init__(self):
+        self.queue = []
+    def step(self):
+        self.queue.append(1)
+"""
+
+
+def _scan_containers(mod):
+    """-> [(cls, attr, mutations, rebinds)] for every class-level mutable container of the module"""
+    out = []
+    for cls in mod.all_classes:
+        for attr, val in cls.assigns.items():
+            mutable = isinstance(val, (ast.List, ast.Dict, ast.Set, ast.ListComp, ast.DictComp, ast.SetComp)) or \
+                (isinstance(val, ast.Call) and norm(val.func) in CONTAINER_CALLS)
+            if not mutable:
+                continue
+            muts = []
+            for c2 in mod.all_classes:
+                if not c2.is_subclass_of(cls):
+                    continue
+                for m in c2.methods.values():
+                    recv = m.params()[0] if m.params() else None
+                    if recv is None:
+                        continue
+                    for x in walk_no_nested(m.node):
+                        if isinstance(x, ast.Call) and isinstance(x.func, ast.Attribute) and x.func.attr in MUTATORS and \
+                                attr_chain(x.func.value) == [recv, attr]:
+                            muts.append((m, x.lineno, x.func.attr))
+                        elif isinstance(x, (ast.Assign, ast.AugAssign, ast.Delete)):
+                            tg = x.targets if isinstance(x, (ast.Assign, ast.Delete)) else [x.target]
+                            for t in tg:
+                                if isinstance(t, ast.Subscript) and attr_chain(t.value) == [recv, attr]:
+                                    muts.append((m, x.lineno, "item store"))
+            rebinds = False
+            for c2 in cls.mro():
+                init = c2.methods.get("__init__")
+                if init is not None and init.params():
+                    rv = init.params()[0]
+                    if any(isinstance(x, ast.Assign) and any(attr_chain(t) == [rv, attr] for t in x.targets) for x in walk_no_nested(init.node)):
+                        rebinds = True
+            out.append((cls, attr, muts, rebinds))
+    return out
+
+
+def class_level_containers(ctx):
+    """R12.4: a mutable container created in a class body is one object shared by all instances (and all parses).  If methods
+    mutate it in place through self, every instance must first rebind the attribute to a fresh container in __init__;
+    otherwise content from one parse shows up in the next / in a concurrent one.  (Today's tree has no such container at
+    all; every class is scanned and a built-in positive example keeps the rule alive.)"""
+    from ..repo import ModuleInfo
+    r = ctx.r
+    r.rule("R12.4", "no class-level mutable container is mutated in place through self without a per-instance rebind in __init__", floor=60)
+    for rel, mod in sorted(ctx.repo.modules.items()):
+        if rel.startswith("tests/"):
+            continue
+        found = {(c.qual, a): (c, a, m, rb) for c, a, m, rb in _scan_containers(mod)}
+        for cls in mod.all_classes:
+            mine = [v for (q, a), v in found.items() if q == cls.qual]
+            if not mine:
+                r.ok("R12.4", "class-container::%s::%s" % (rel, cls.qual), cls.where)
+            for c, attr, muts, rebinds in mine:
+                key = "class-container::%s::%s.%s" % (rel, cls.qual, attr)
+                r.check("R12.4", not muts or rebinds, key, cls.where,
+                        "%s.%s is a mutable container created once in the class body and mutated in place through self (%s at line %s) "
+                        "without a per-instance rebind in __init__: all instances share it, so tokens / entries left by one parse (for "
+                        "example after a strict-mode abort) are seen by the next" % (
+                            cls.qual, attr, muts[0][2] if muts else "", muts[0][1] if muts else ""),
+                        {"class": cls.qual, "attr": attr}, detail={"class": cls.qual, "attr": attr, "mutated_in_place": bool(muts), "rebinds": rebinds})
+    pos = ModuleInfo("positive_r12_4.py", "<positive example>", source=POSITIVE_R12_4)
+    res = {(c.name, a): (bool(m), rb) for c, a, m, rb in _scan_containers(pos)}
+    r.positive("R12.4", res.get(("T", "queue")) == (True, False) and res.get(("T", "table")) == (False, False) and res.get(("U", "queue")) == (True, True))
+
+
 def thorough(ctx):
     from .. import selftest
     selftest.run(ctx, sys.modules[__name__])
@@ -539,6 +631,7 @@ def thorough(ctx):
 def mutants():
     from ..selftest import TextMutant as T
     return [
+        T("tokenqueue-class-level", "_tokenizer.py", "    def __init__(self, stream, parser=None, **kwargs):\n", "    tokenQueue = deque([])\n\n    def __init__(self, stream, parser=None, **kwargs):\n", "R12.4"),
         T("drop-reset-frameset", "html5parser.py", "        self.beforeRCDataPhase = None\n\n        self.framesetOK = True\n",
           "        self.beforeRCDataPhase = None\n", "R12.1"),
         T("conditional-reset", "html5parser.py", "        self.firstStartTag = False\n        self.errors = []\n",
